@@ -170,7 +170,7 @@ def inventory_rule(chk, prefix, P, bodies, allow, text, lock_unwrap_ok=True, ski
         by_kind = {}
         notes = []
         for s in ss:
-            r = discharge(b, s)
+            r = discharge(b, s) or discharge2(b, s)
             if r:
                 notes.append("%s %s: %s" % (s["loc"], s["kind"], r))
                 continue
@@ -205,3 +205,289 @@ def inventory_rule(chk, prefix, P, bodies, allow, text, lock_unwrap_ok=True, ski
         else:
             chk.ok(key, text, sites=notes[:8] or [b.span])
     return total, undischarged_total
+
+
+# ---- interval-lite: value ranges from constants, types and dominating guards ----------------------------------------
+
+INF = float("inf")
+TY_RANGE = {"u8": (0, 2 ** 8 - 1), "u16": (0, 2 ** 16 - 1), "u32": (0, 2 ** 32 - 1), "u64": (0, 2 ** 64 - 1), "usize": (0, 2 ** 64 - 1),
+            "u128": (0, 2 ** 128 - 1), "i8": (-2 ** 7, 2 ** 7 - 1), "i16": (-2 ** 15, 2 ** 15 - 1), "i32": (-2 ** 31, 2 ** 31 - 1),
+            "i64": (-2 ** 63, 2 ** 63 - 1), "isize": (-2 ** 63, 2 ** 63 - 1), "i128": (-2 ** 127, 2 ** 127 - 1)}
+
+
+def _local_of(o):
+    if o[0] == "local":
+        return o[1]
+    if o[0] == "phi" and len(o) > 2 and o[2] is not None:
+        return o[2]
+    if o[0] == "param":
+        return o[1]
+    return None
+
+
+def _sid(b, op_or_origin, is_origin=False):
+    o = op_or_origin if is_origin else b.origin(op_or_origin, through_calls=("deref", "deref_mut", "as_ref", "as_slice", "borrow"))
+    l = _local_of(o)
+    if l is not None:
+        return "local%d" % l
+    return mir.o_str(o)
+
+
+def _len_target(b, o):
+    """If the origin is the length of some slice, that slice's id."""
+    if o[0] == "call" and o[1].callee.get("name") == "len" and o[1].args:
+        return _sid(b, o[1].args[0])
+    if o[0] == "unop" and o[1] == "PtrMetadata":
+        return _sid(b, o[2], is_origin=True)
+    return None
+
+
+def _apply(op, k, taken, lo, hi):
+    if op == "Gt":
+        return (max(lo, k + 1), hi) if taken else (lo, min(hi, k))
+    if op == "Ge":
+        return (max(lo, k), hi) if taken else (lo, min(hi, k - 1))
+    if op == "Lt":
+        return (lo, min(hi, k - 1)) if taken else (max(lo, k), hi)
+    if op == "Le":
+        return (lo, min(hi, k)) if taken else (max(lo, k + 1), hi)
+    if op == "Eq":
+        return (max(lo, k), min(hi, k)) if taken else (lo, hi)
+    if op == "Ne":
+        return (lo, hi) if taken else (max(lo, k), min(hi, k))
+    return lo, hi
+
+
+FLIP = {"Gt": "Lt", "Lt": "Gt", "Ge": "Le", "Le": "Ge", "Eq": "Eq", "Ne": "Ne"}
+
+
+def guard_bounds(b, bb, match):
+    """(lo, hi) implied for the quantity recognised by match(origin)->bool from comparisons with constants on
+    switch edges that dominate bb."""
+    lo, hi = -INF, INF
+    for gbb, vals, n in b.guards_of(bb):
+        so = b.switch_origin(gbb)
+        neg = False
+        while so[0] == "unop" and so[1] == "Not":
+            so = so[2]
+            neg = not neg
+        if so[0] != "binop" or so[1] not in FLIP:
+            # PartialOrd/PartialEq calls on integers do not occur (primitive compares are binops)
+            continue
+        taken = (list(vals) != ["0"]) != neg
+        a, c = so[2], so[3]
+        ka, kc = mir.o_const_value(a), mir.o_const_value(c)
+        if isinstance(kc, int) and not isinstance(kc, bool) and match(a):
+            lo, hi = _apply(so[1], kc, taken, lo, hi)
+        elif isinstance(ka, int) and not isinstance(ka, bool) and match(c):
+            lo, hi = _apply(FLIP[so[1]], ka, taken, lo, hi)
+    return lo, hi
+
+
+def len_bounds(b, bb, sid):
+    lo, hi = guard_bounds(b, bb, lambda o: _len_target(b, o) == sid)
+    return max(lo, 0), hi
+
+
+def ival(b, o, bb, depth=0):
+    """Conservative integer interval of an origin at block bb, or None."""
+    if depth > 12:
+        return None
+    v = mir.o_const_value(o)
+    if isinstance(v, int) and not isinstance(v, bool):
+        return (v, v)
+    if o[0] == "field" and o[1][0] == "binop" and o[2] == "0":
+        return ival(b, o[1], bb, depth + 1)
+    if o[0] == "cast":
+        inner = ival(b, o[1], bb, depth + 1)
+        tr = TY_RANGE.get(o[2] or "")
+        fr = TY_RANGE.get(o[3] or "") if len(o) > 3 else None
+        if inner is None:
+            inner = fr
+        elif fr:
+            inner = (max(inner[0], fr[0]), min(inner[1], fr[1]))
+        if inner is not None and tr and tr[0] <= inner[0] and inner[1] <= tr[1]:
+            return inner
+        return tr
+    if o[0] == "binop":
+        op = o[1].replace("WithOverflow", "").replace("Unchecked", "")
+        x = ival(b, o[2], bb, depth + 1)
+        y = ival(b, o[3], bb, depth + 1)
+        if op == "Rem" and y is not None and y[0] == y[1] and y[0] > 0:
+            return (0, y[0] - 1)
+        if op == "BitAnd" and y is not None and y[0] == y[1] and y[0] >= 0:
+            return (0, y[0])
+        if x is None and len(o) > 4 and o[4] in TY_RANGE:
+            x = TY_RANGE[o[4]]
+        if x is None or y is None:
+            return None
+        if op == "Add":
+            return (x[0] + y[0], x[1] + y[1])
+        if op == "Sub":
+            return (x[0] - y[1], x[1] - y[0])
+        if op == "Mul":
+            c = [x[0] * y[0], x[0] * y[1], x[1] * y[0], x[1] * y[1]]
+            return (min(c), max(c))
+        if op == "Div" and y[0] > 0:
+            return (x[0] // y[1] if x[0] >= 0 else x[0] // y[0], x[1] // y[0] if x[1] >= 0 else x[1] // y[1])
+        if op == "Shr" and y[0] >= 0 and x[0] >= 0:
+            return (x[0] >> int(y[1]) if y[1] != INF else 0, x[1] >> int(y[0]))
+        return None
+    sid = _len_target(b, o)
+    if sid is not None:
+        return len_bounds(b, bb, sid)
+    l = _local_of(o)
+    if l is not None:
+        ty = b.local_ty(l)
+        tr = TY_RANGE.get(ty, (-INF, INF))
+        lo, hi = guard_bounds(b, bb, lambda x, l=l: _local_of(x) == l)
+        return (max(lo, tr[0]), min(hi, tr[1]))
+    if o[0] in ("field", "index", "downcast"):
+        # a field / element of some type: only the type range is known; the caller passes the operand type when it can
+        return None
+    return None
+
+
+def _operand_ty(b, op):
+    pl = op.get("c") or op.get("m")
+    if pl is not None and "p" not in pl:
+        return b.local_ty(pl["l"])
+    k = op.get("k")
+    if isinstance(k, dict):
+        return k.get("ty")
+    return None
+
+
+def discharge2(b, s):
+    """Interval-based discharges (second line after `discharge`)."""
+    t = s["term"]
+    k = s["kind"]
+    bb = s["bb"]
+    if k == "assert:bounds":
+        idx = ival(b, b.origin(t["msg"]["index"]), bb)
+        lno = b.origin(t["msg"]["len"])
+        ln = ival(b, lno, bb)
+        if idx is not None and ln is not None and idx[0] >= 0 and idx[1] < ln[0]:
+            return "index in [%s, %s] < length >= %s" % (idx[0], idx[1], ln[0])
+    if k.startswith("assert:overflow:"):
+        op = k.rsplit(":", 1)[1]
+        a, c = t["msg"].get("a"), t["msg"].get("b")
+        if a is None or c is None:
+            return None
+        ty = _operand_ty(b, a) or _operand_ty(b, c)
+        tr = TY_RANGE.get(ty or "")
+        if not tr:
+            return None
+        x = ival(b, b.origin(a), bb)
+        y = ival(b, b.origin(c), bb)
+        if x is None:
+            x = tr
+        if y is None:
+            y = tr if op not in ("Shl", "Shr") else None
+        if y is None:
+            return None
+        if op == "Add":
+            r = (x[0] + y[0], x[1] + y[1])
+        elif op == "Sub":
+            r = (x[0] - y[1], x[1] - y[0])
+        elif op == "Mul":
+            cs = [x[0] * y[0], x[0] * y[1], x[1] * y[0], x[1] * y[1]]
+            r = (min(cs), max(cs))
+        elif op in ("Div", "Rem"):
+            # signed MIN / -1 only
+            if tr[0] == 0 or y[0] > -1 or y[1] < -1 or x[0] > tr[0]:
+                return "no signed-overflow case (operand ranges %s, %s)" % (x, y)
+            return None
+        elif op in ("Shl", "Shr"):
+            bits = {"u8": 8, "u16": 16, "u32": 32, "u64": 64, "usize": 64, "u128": 128, "i8": 8, "i16": 16, "i32": 32, "i64": 64, "isize": 64, "i128": 128}.get(ty)
+            if bits and 0 <= y[0] and y[1] < bits:
+                return "shift amount in [%s, %s] < %d bits" % (y[0], y[1], bits)
+            return None
+        else:
+            return None
+        if tr[0] <= r[0] and r[1] <= tr[1]:
+            return "result in [%s, %s] fits %s" % (r[0], r[1], ty)
+    if k == "index:slice":
+        return _discharge_range(b, s)
+    if k == "call:copy_from_slice":
+        cs = mir.CallSite(b, bb, t)
+        dst = b.origin(cs.args[0], through_calls=("deref_mut", "deref"))
+        src_sid = _sid(b, cs.args[1])
+        if dst[0] == "call" and dst[1].callee.get("name") in ("index", "index_mut") and len(dst[1].args) > 1:
+            ro = b.origin(dst[1].args[1])
+            if ro[0] == "agg" and (ro[1].get("adt") or "").endswith("range::Range"):
+                f = dict(zip(ro[1]["fields"], ro[2]))
+                e = f["end"]
+                e2 = e[1] if e[0] == "field" and e[1][0] == "binop" else e
+                if e2[0] == "binop" and e2[1].startswith("Add") and mir.o_str(e2[2]) == mir.o_str(f["start"]) and _len_target(b, e2[3]) == src_sid:
+                    return "destination is [start..start + src.len()]: lengths are equal by construction"
+    if k == "call:split_at":
+        cs = mir.CallSite(b, bb, t)
+        mid = b.origin(cs.args[1])
+        for gbb, vals, n in b.guards_of(bb):
+            so = b.switch_origin(gbb)
+            if so[0] == "call" and so[1].callee.get("name") == "is_char_boundary" and list(vals) != ["0"]:
+                if mir.o_str(b.origin(so[1].args[1])) == mir.o_str(mid) and _sid(b, so[1].args[0]) == _sid(b, cs.args[0]):
+                    return "split_at(n) dominated by is_char_boundary(n) on the same str"
+    return None
+
+
+def _discharge_range(b, s):
+    t = s["term"]
+    bb = s["bb"]
+    cs = mir.CallSite(b, bb, t)
+    if len(cs.args) < 2:
+        return None
+    ro = b.origin(cs.args[1])
+    if ro[0] != "agg" or not (ro[1].get("adt") or "").startswith("core::ops::range::"):
+        return None
+    kind = ro[1]["adt"].rsplit("::", 1)[1]
+    f = dict(zip(ro[1]["fields"], ro[2]))
+    recv = b.origin(cs.args[0], through_calls=("deref", "deref_mut", "as_ref", "as_slice"))
+    sid = _sid(b, recv, is_origin=True)
+    # length knowledge about the receiver
+    n_arr = None
+    m = None
+    pl = cs.args[0].get("c") or cs.args[0].get("m")
+    st = cs.callee.get("self_ty") or ""
+    m = re.search(r"^\[.*; (\d+)\]$", st)
+    if m:
+        n_arr = int(m.group(1))
+    lo_len = n_arr if n_arr is not None else len_bounds(b, bb, sid)[0]
+    start = ival(b, f["start"], bb) if "start" in f else (0, 0)
+    end_o = f.get("end")
+    if kind == "RangeFrom":
+        if start is not None and start[0] >= 0 and start[1] <= lo_len:
+            return "start <= %s <= length" % start[1]
+        # `&s[1..]` right after `s.get(0)` returned Some on the same slice
+        if start == (1, 1):
+            for gbb, vals, n in b.guards_of(bb):
+                so = b.switch_origin(gbb)
+                if so[0] == "discr" and so[1][0] == "call" and so[1][1].callee.get("name") in ("get", "first") and list(vals) == ["1"]:
+                    g = so[1][1]
+                    if _sid(b, g.args[0]) == sid and (g.callee.get("name") == "first" or mir.o_const_value(b.origin(g.args[1])) == 0):
+                        return "`[1..]` dominated by get(0) being Some on the same slice"
+        return None
+    if end_o is None:
+        return None
+    end = ival(b, end_o, bb)
+    # end relative to the length: len - c
+    eo = end_o[1] if end_o[0] == "field" and end_o[1][0] == "binop" else end_o
+    if eo[0] == "binop" and eo[1].startswith("Sub") and _len_target(b, eo[2]) == sid:
+        c = mir.o_const_value(eo[3])
+        if isinstance(c, int) and c >= 0 and lo_len >= c and start is not None and start[1] <= lo_len - c and start[0] >= 0:
+            return "range [%s..len-%d] with length >= %s" % (start[1], c, lo_len)
+    if end is not None and start is not None and 0 <= start[0] and start[1] <= end[0] and end[1] <= lo_len:
+        return "range [%s..%s] within length >= %s" % (start[1], end[1], lo_len)
+    # end guarded by `end <= len` and end = start + x
+    for gbb, vals, n in b.guards_of(bb):
+        so = b.switch_origin(gbb)
+        if so[0] == "binop" and so[1] == "Le" and list(vals) != ["0"]:
+            if mir.o_str(so[2]) == mir.o_str(end_o) and (_len_target(b, so[3]) == sid or (n_arr is not None and mir.o_const_value(so[3]) == n_arr)
+                                                       or (n_arr is not None and array_len(b, so[3]) == n_arr)):
+                e2 = end_o[1] if end_o[0] == "field" and end_o[1][0] == "binop" else end_o
+                if kind == "RangeTo":
+                    return "end <= length by the dominating guard"
+                if e2[0] == "binop" and e2[1].startswith("Add") and "start" in f and mir.o_str(e2[2]) == mir.o_str(f["start"]):
+                    return "end = start + n and end <= length by the dominating guard"
+    return None
